@@ -237,7 +237,7 @@ func (b *stubBase) Start(_ context.Context, host component.Host) error {
 	return nil
 }
 
-func (b *stubBase) Shutdown(context.Context) error {
+func (b *stubBase) Shutdown(ctx context.Context) error {
 	p := b.w.plan(b.k())
 	b.nShutdown++
 	b.w.emit("shutdown", b.k(), b.gen, "")
@@ -247,6 +247,10 @@ func (b *stubBase) Shutdown(context.Context) error {
 	b.live = false
 	if p.FailShutdown {
 		b.w.emit("shutdown-fail", b.k(), b.gen, "")
+		if ctx.Err() != nil {
+			// the drain was cut short by the caller's context: the failure carries that context's error
+			return fmt.Errorf("%s: %w: %w", b.k(), errStubShutdown, ctx.Err())
+		}
 		return fmt.Errorf("%s: %w", b.k(), errStubShutdown)
 	}
 	b.w.emit("stopped", b.k(), b.gen, "")
